@@ -193,19 +193,29 @@ TQuiesce ==
           >>, l, run)
     /\ UNCHANGED Same
 
+\* end of a run with a block whose data the DA client can never send: what lies in front of it must have gone through
+TOversizeEnd ==
+    /\ Is("OversizeEnd") /\ Adv
+    /\ viol' = viol \o Failed(<<
+          <<"C06.AllSubmitted", e.up /\ (\A h \in ih .. (e.huge - 1) : HeldH(h) /\ (Empty(h) \/ HeldD(h))) /\ (\A h \in ih .. height : HeldH(h)),
+              "blocks in front of one that is too big for the DA client did not reach the DA layer">>,
+          <<"C07.EventuallyIncluded", e.up /\ lastIncl = e.huge - 1, "the DA-included height is not exactly the height below the block whose data cannot be submitted">>
+          >>, l, run)
+    /\ UNCHANGED Same
+
 TPanic ==
     /\ Is("Panic") /\ Adv
     /\ viol' = viol \o Failed(<< <<"C06.Panic", FALSE, "panic in node code">>, <<"C07.Panic", FALSE, "panic in node code">> >>, l, run)
     /\ UNCHANGED Same
 
-Handled == {"Reset", "DASubmit", "StepBegin", "StepRet", "StepEnd", "Quiesce", "Panic"}
+Handled == {"Reset", "DASubmit", "StepBegin", "StepRet", "StepEnd", "Quiesce", "OversizeEnd", "Panic"}
 TOther ==
     /\ l <= N /\ Adv
     /\ e.ev \notin Handled
     /\ ~(e.ev \in {"Obs", "ExecFinal", "Restart", "Crash", "NodeErr", "Stop", "KV"} /\ e.node = "seq")
     /\ UNCHANGED Same /\ UNCHANGED viol
 
-Next == TKV \/ TReset \/ TObs \/ TSubmit \/ TFinal \/ TDisturb \/ TStepBegin \/ TStepRet \/ TStepEnd \/ TQuiesce \/ TPanic \/ TOther
+Next == TKV \/ TReset \/ TObs \/ TSubmit \/ TFinal \/ TDisturb \/ TStepBegin \/ TStepRet \/ TStepEnd \/ TQuiesce \/ TOversizeEnd \/ TPanic \/ TOther
 Spec == Init /\ [][Next]_vars
 Finish == (l = N + 1) => ndJsonSerialize("viol.ndjson", viol)
 Consumed == TLCGet("stats").diameter = N + 1
